@@ -3,6 +3,7 @@ package main
 import (
 	"fmt"
 	"go/types"
+	"os"
 	"sort"
 	"strings"
 	"sync"
@@ -329,6 +330,22 @@ func (e *Engine) Explore(fn *ssa.Function) (*HarnessStats, error) {
 			mu.Unlock()
 		}
 	}
+	progDone := make(chan struct{})
+	go func() {
+		tk := time.NewTicker(10 * time.Second)
+		defer tk.Stop()
+		for {
+			select {
+			case <-progDone:
+				return
+			case <-tk.C:
+				mu.Lock()
+				fmt.Fprintf(os.Stderr, "  .. %s paths=%d queue=%d active=%d outcomes=%v t=%.0fs\n", fn.Name(), st.Paths, len(queue), active, fmtOutcomes(st.Outcomes), time.Since(start).Seconds())
+				mu.Unlock()
+			}
+		}
+	}()
+	defer close(progDone)
 	var wg sync.WaitGroup
 	for i := 0; i < e.workers; i++ {
 		wg.Add(1)
@@ -350,6 +367,11 @@ func (e *Engine) record(st *HarnessStats, res *PathResult, in *Interp) {
 	}
 	for _, n := range res.Notes {
 		st.Notes[n]++
+	}
+	if e.cfg.Sites {
+		for _, k := range res.Kinds {
+			st.Notes["site:"+k]++
+		}
 	}
 	if res.Outcome == "infeasible" {
 		return
